@@ -2,7 +2,10 @@ package c18
 
 import (
 	"bytes"
+	"encoding/base64"
+	"encoding/hex"
 	"fmt"
+	"os"
 
 	ov "github.com/mholt/caddy-l4/modules/l4openvpn"
 
@@ -98,6 +101,75 @@ func runCryptoLaws(c *fw.Ctx) {
 			report("does not decrypt and authenticate", "the wire form of a wrapped key made with the server key is not accepted by DecryptAndAuthenticate with the same key")
 		case !bytes.Equal(back.StaticKey.KeyBytes, ck) || (len(meta) > 0 && (!bytes.Equal(back.MetaData.Payload, meta) || back.MetaData.Type != mtype)):
 			report("different key or metadata", "the key / metadata read back from the wire form differ from the original")
+		}
+	}
+}
+
+// runKeyFileLaws: what a key file holds is what reading it gives - each time it is read. A group key file and a server
+// key file are written, read, rewritten with another key under the same path and read again (a key rotation followed by
+// a configuration reload in one process): ToHex / ToBase64 of what was read reproduces the file's current contents.
+func runKeyFileLaws(c *fw.Ctx) {
+	if c.Shard != 0 {
+		return
+	}
+	dir := c.OutDir + "/keyfiles"
+	_ = os.MkdirAll(dir, 0o755)
+	n := c.Pick(40, 400)
+	for i := 0; i < n; i++ {
+		r := caseRand(c.Seed, "openvpn-keyfile", i)
+		path := fmt.Sprintf("%s/k%d.key", dir, i%3) // paths are reused: every third file replaces an earlier one
+		kind := []string{"group", "server"}[r.Intn(2)]
+		var text, want string
+		var read func() (string, error)
+		switch kind {
+		case "group":
+			key := randBytes(r, 256)
+			want = hex.EncodeToString(key)
+			text = "#\n# 2048 bit OpenVPN static key\n#\n-----BEGIN OpenVPN Static key V1-----\n"
+			for o := 0; o < len(want); o += 32 {
+				text += want[o:o+32] + "\n"
+			}
+			text += "-----END OpenVPN Static key V1-----\n"
+			read = func() (string, error) {
+				sk := &ov.StaticKey{}
+				if err := sk.FromGroupKeyFile(path); err != nil {
+					return "", err
+				}
+				return sk.ToHex(), nil
+			}
+		default:
+			key := randBytes(r, 128)
+			want = base64.StdEncoding.EncodeToString(key)
+			text = "-----BEGIN OpenVPN tls-crypt-v2 server key-----\n"
+			for o := 0; o < len(want); o += 64 {
+				text += want[o:min(o+64, len(want))] + "\n"
+			}
+			text += "-----END OpenVPN tls-crypt-v2 server key-----\n"
+			read = func() (string, error) {
+				sk := &ov.StaticKey{}
+				if err := sk.FromServerKeyFile(path); err != nil {
+					return "", err
+				}
+				return sk.ToBase64(), nil
+			}
+		}
+		if err := os.WriteFile(path, []byte(text), 0o600); err != nil {
+			c.Inconclusive("cannot write a key file")
+			return
+		}
+		var got string
+		var err error
+		p := guard(func() { got, err = read() })
+		c.Obs("key_files_read", 1)
+		c.Case(fw.Hash("keyfile", kind, i%3), true, func() any { return map[string]any{"index": i, "kind": kind} })
+		w := map[string]any{"index": i, "kind": kind, "path_reused": i >= 3}
+		switch {
+		case p != nil:
+			c.Violation("C18 openvpn key file: panic in "+p.Func, p.Value, w)
+		case err != nil:
+			c.Violation("C18 openvpn key file: a well-formed "+kind+" key file is rejected", err.Error(), w)
+		case got != want:
+			c.Violation("C18 openvpn key file: reading a "+kind+" key file does not give the key the file holds", fmt.Sprintf("the file holds %.24s..., reading it gives %.24s... (the path held another key earlier in this process: %v)", want, got, i >= 3), w)
 		}
 	}
 }
